@@ -268,6 +268,9 @@ func (s *c04state) evalRv(e *c04ex) *c04val {
 		return c04IntVal(int64(s.evalRv(e.A).Cap))
 	case "slice":
 		bv := s.evalRv(e.A)
+		if bv.K == 'n' && e.A.T.k == c04Slice {
+			bv = &c04val{K: 'l'} // the nil slice: length and capacity 0
+		}
 		base, off, ln, cp := s.sliceOf(bv)
 		lo, hi, mx := 0, ln, cp
 		if e.B != nil {
@@ -381,6 +384,14 @@ func (s *c04state) evalRhs(r *c04rhs) *c04val {
 		sv := s.evalRv(r.E)
 		vs := evalList(r.L)
 		return s.appendVals(c04ElemKind(r.T.elem), c04Zero(r.T.elem), sv, vs)
+	case "appendslice":
+		sv := s.evalRv(r.E)
+		tv := s.evalRv(r.E2)
+		var vs []*c04val
+		if tv.K == 'l' {
+			vs = s.readElems(tv.P, tv.Off, tv.Len)
+		}
+		return s.appendVals(c04ElemKind(r.T.elem), c04Zero(r.T.elem), sv, vs)
 	case "slicelit":
 		vs := evalList(r.L)
 		l := s.alloc(&c04cell{V: &c04val{K: 'a', Fs: vs}})
@@ -448,6 +459,12 @@ func (s *c04state) exec(o *c04op, out *[][]int64) {
 		}
 	case "copy":
 		dv, sv := s.evalRv(o.A), s.evalRv(o.B)
+		if dv.K == 'n' && o.A.T.k == c04Slice {
+			dv = &c04val{K: 'l'}
+		}
+		if sv.K == 'n' && o.B.T.k == c04Slice {
+			sv = &c04val{K: 'l'}
+		}
 		db, doff, dlen, _ := s.sliceOf(dv)
 		sb, soff, slen, _ := s.sliceOf(sv)
 		n := dlen
